@@ -24,9 +24,10 @@ pub(in crate::sql) fn preprocess(
     ctx: &mut Context,
 ) -> Result<Vec<SqlTransform>> {
     #[cfg(feature = "verif")]
-    let (distinct, union, except, intersect) = {
+    let (prune_inputs, distinct, union, except, intersect) = {
         use traced_stage as tr;
         (
+            |p, c: &mut Context| tr("prune_inputs", prune_inputs, p, c),
             |p, c: &mut Context| tr("distinct", distinct, p, c),
             |p, c: &mut Context| tr("union", union, p, c),
             |p, c: &mut Context| tr("except", except, p, c),
@@ -710,6 +711,7 @@ fn traced_stage(
         .collect();
     let select_columns = ctx.anchor.determine_select_columns(&pipeline);
     let mut instances = crate::sql::verif_hooks::instances_of(&ctx.anchor, &pipeline);
+    let instances_before = instances.clone();
     let res = f(pipeline, ctx);
     if let (Ok(out), Some(map)) = (&res, instances.as_object_mut()) {
         if let serde_json::Value::Object(more) = crate::sql::verif_hooks::instances_of(&ctx.anchor, out) {
@@ -726,6 +728,7 @@ fn traced_stage(
         "error": res.as_ref().err().map(|e| format!("{e:?}")),
         "select_columns": select_columns,
         "instances": instances,
+        "instances_before": instances_before,
         "wildcards": wildcards,
         "supports_distinct_on": ctx.dialect.supports_distinct_on(),
         "except_all": ctx.dialect.except_all(),
